@@ -298,25 +298,93 @@ def _run_construct(repo, ids, cname, kwargs, fname="construct"):
     return res, it, mod, fn
 
 
+_VPOINT_SRC = """
+class _VPoint(object):
+    def __mul__(self, k):
+        r = self.__class__()
+        r.xy = self.pub_xy
+        r.x = self.pub_xy[0]
+        r.y = self.pub_xy[1]
+        return r
+    def __rmul__(self, k):
+        return self.__mul__(k)
+    def __eq__(self, o):
+        return self.xy == o.xy
+    def __ne__(self, o):
+        return not (self.xy == o.xy)
+    def copy(self):
+        return self
+    def is_point_at_infinity(self):
+        return False
+"""
+_VPOINT = []
+
+
+def _vpoint_class():
+    if not _VPOINT:
+        tree = ast.parse(_VPOINT_SRC)
+        c = tree.body[0]
+        for node in ast.walk(tree):
+            for ch in ast.iter_child_nodes(node):
+                ch._parent = node
+        for f in c.body:
+            f._qualname = "_VPoint." + f.name
+        c._qualname = "_VPoint"
+        c._vmethods = dict((f.name, f) for f in c.body if isinstance(f, ast.FunctionDef))
+        _VPOINT.append(c)
+    return _VPOINT[0]
+
+
 def _construct_match(check, repo, ids, cname, lab):
-    """With both a private part and a public point, construct() must reach a
-    test that can refuse the pair (private/public mismatch -> ValueError)."""
-    priv = {"d": 5} if cname == "P256" else {"seed": ABytes(32 if "25519" in cname else (57 if cname == "ED448" else 56))}
-    kw = dict(curve="X", point_x=7, **priv)
-    if not cname.startswith("CURVE"):
-        kw["point_y"] = 9
-    res, it, mod, fn = _run_construct(repo, ids, cname, kw)
-    refusals = [o for o in res.raises() if o.depth == 0 and "ValueError" in it.exc_mro(o.exc, mod)]
-    # a refusal that depends on the computed public key: raise under a test on
-    # `curve.G * d` / pointQ -- approximated by: some ValueError raise is
-    # reachable after the key object was built
-    built = [e for e in res.events if e.kind == "call" and e.name == "EccKey"]
-    ok = bool(built) and bool(refusals)
+    """With both a private part and a public point, construct() must compare the public point computed from the
+    private part with the supplied one: interpreted with a stand-in point class (G * d gives a point with chosen
+    coordinates), once with the supplied point equal to G * d and once different."""
+    mod = repo.module(ECC)
+    fn = repo.func(mod, "construct")
+    vcls = _vpoint_class()
+    xonly = cname.startswith("CURVE")
+    supplied = (7, None) if xonly else (7, 9)
+    verdicts = {}
+    for scenario, pub in (("match", supplied), ("mismatch in x", (8, supplied[1])), ("mismatch in y", (7, 10))):
+        if xonly and scenario == "mismatch in y":
+            continue
+
+        def mk_point(i, st, xy):
+            o = i.new_obj(st, mod, vcls, havoc=False)
+            st.heap[o.ident].update({"xy": xy, "x": xy[0], "y": xy[1]})
+            return o
+
+        def m_point(i, a, kw, st, node):
+            return mk_point(i, st, (a[0], a[1]) if not xonly else (a[0], None))
+
+        def m_key(i, a, kw, st, node):
+            k = i.new_obj(st, label="key")
+            st.heap[k.ident].update({"d": 5, "pointQ": kw.get("point"), "_d": 5, "curve": "X"})
+            return k
+        models = {"Crypto.PublicKey._point.EccPoint": m_point, "Crypto.PublicKey._point.EccXPoint": m_point,
+                  "Crypto.PublicKey.ECC.EccKey": m_key}
+        mm = {"has_private": lambda i, base, a, kw, st, node: True, "validate": lambda i, base, a, kw, st, node: None}
+        it = Interp(repo, max_depth=3, extra_models=models, method_models=mm)
+        st = State()
+        G = it.new_obj(st, mod, vcls, havoc=False)
+        st.heap[G.ident].update({"pub_xy": pub, "xy": (1, 2), "x": 1, "y": 2})
+        cobj = it.new_obj(st, label="curve", attrs={"id": ids[cname], "order": BIG, "G": G})
+        it.inject = {"_curves[curve_name]": cobj}
+        priv = {"d": 5} if cname == "P256" else {"seed": ABytes(32 if "25519" in cname else (57 if cname == "ED448" else 56))}
+        kw = dict(curve="X", point_x=7, **priv)
+        if not xonly:
+            kw["point_y"] = 9
+        res = it.run(mod, fn, {"kwargs": kw}, state=st)
+        if res.rejected():
+            verdicts[scenario] = "refused (%s)" % ",".join(sorted(set(k[1] for k in res.killers if k[0] == "raise")) or res.raise_classes())
+        elif res.raises():
+            verdicts[scenario] = "undecided"
+        else:
+            verdicts[scenario] = "accepted"
+    ok = verdicts.get("match") == "accepted" and all(v == "refused (ValueError)" for k, v in verdicts.items() if k != "match")
     check.ob("G", "G|ecc.match." + lab, ok, mod.path, fn.lineno,
-             extracted="construct(curve=%s, private part, public point): %s" % (
-                 cname, "a mismatch can be refused (ValueError at line %s)" % refusals[0].node.lineno
-                 if ok else "no test can refuse a mismatching pair (no ValueError reachable after the key is built)"),
-             expected="private and public halves are compared; mismatch raises ValueError",
+             extracted="construct(curve=%s, private part d, public point): %s" % (cname, "; ".join("%s -> %s" % kv for kv in sorted(verdicts.items()))),
+             expected="the supplied public point is compared with G*d: equal -> accepted, different -> ValueError",
              note="property C05: mismatched private/public parts are refused")
 
 
